@@ -157,6 +157,22 @@ class Prop(common.PropertyCheck):
                 # padding after the last delimiter of the primary TEXT; with TSDA and a leading delimiter the next byte in the file is the delimiter
                 'text_trailer': rng.choice(['', '', '   ', ' ', '\x00\x00']), 'pad_data': rng.choice([0, 0, 3])}}
 
+        # line breaks: CR / LF are ordinary characters (also right after a delimiter, at the start of a keyword or value, and as the delimiter)
+        for _ in range(self.budget(1200, 12000)):
+            d = rng.choice([47, 124, 10, 13, 47, 33])
+            n = rng.randrange(0, 20)
+            seg = [rng.choice([d, d, d, 10, 13, 10, 97, 98, 32]) for _ in range(n)]
+            yield {'k': 'seg', 'd': d, 'supp': rng.random() < 0.5, 'seg': seg, 'auto': rng.random() < 0.3}
+        for _ in range(self.budget(600, 6000)):
+            d = rng.choice([47, 124, 10, 13, 33, 92])
+            alphabet = [d, d, 10, 13, 10, 97, 98, 36, 32]
+            toks = []
+            for _t in range(2 * rng.randrange(1, 5)):
+                first = rng.choice([c for c in alphabet if c != d])
+                body = [rng.choice(alphabet) for _b in range(rng.randrange(0, 6))]
+                toks.append([first] + body)
+            yield {'k': 'dict', 'd': d, 'toks': toks, 'tail': [], 'supp': rng.random() < 0.4, 'lead': rng.random() < 0.5}
+
     # ---- implementation side ------------------------------------------------
     def read_seg(self, segb, d, supp, auto=False):
         buf = io.BytesIO(segb)
